@@ -46,6 +46,13 @@ def script_text(df, ver, rule):
             args = ' '.join(shquote(rel(a)) for a in o['args'])
             if op == 'ifchange':
                 lines.append('    redo-ifchange %s; vjit' % args)
+            elif op == 'redo':
+                lines.append('    redo %s%s; vjit' % (args, ' || true' if o['ch'] == 'ignore' else ''))
+            elif op == 'touch':
+                a = o['args'][0]
+                lines.append('    printf "%%s" %s > %s' % (shquote(render({'n': a, 'k': 'side', 'v': 0, 'd': []})), shquote(rel(a))))
+            elif op == 'failif':
+                lines.append('    if [ -e %s ]; then echo "exit %s %d" >> "$VT_LOG"; exit %d; fi' % (shquote(rel(o['args'][0])), t, o['rc'], o['rc']))
             elif op == 'ifcreate':
                 lines.append('    redo-ifcreate %s' % args)
             elif op == 'watch':
